@@ -123,7 +123,11 @@ pub(super) fn decrypt_packet_body(
 
     if crypto_update {
         // Validate incoming key update
-        if number <= rx_packet || prev_crypto.is_some_and(|x| x.update_unacked) {
+        // `rx_packet` is zero until a packet is received, which must not rule out an update
+        // carried by packet number zero
+        if (number <= rx_packet && !spaces[space].dedup.is_empty())
+            || prev_crypto.is_some_and(|x| x.update_unacked)
+        {
             return Err(Some(TransportError::KEY_UPDATE_ERROR("")));
         }
     }
